@@ -721,9 +721,20 @@ pub fn enumerate_c19(file: &CorpusFile, thorough: bool) -> Vec<Variant> {
     let (info, _blocks) = annotate(file, &lines);
     let mut out = vec![];
     let fk = file.kind.as_str();
+    // blocks that contain non-ASCII text get cells of their own: byte offsets and character
+    // offsets differ there (a classic hazard of hand-written parsers)
+    let mut non_ascii_block = vec![false; lines.len()];
+    for b in &_blocks {
+        let na = (b.start..=b.end.min(lines.len() - 1)).any(|i| !lines[i].is_ascii());
+        if na {
+            for i in b.start..=b.end.min(lines.len() - 1) {
+                non_ascii_block[i] = true;
+            }
+        }
+    }
     for (i, l) in lines.iter().enumerate() {
         let li = &info[i];
-        let cellbase = format!("{}|{}|{}", fk, li.region, li.key);
+        let cellbase = format!("{}|{}|{}{}", fk, li.region, li.key, if non_ascii_block[i] { "|non-ascii block" } else { "" });
         let blank = l.trim().is_empty();
         let mut push = |e: Edit| {
             let cell = match &e {
